@@ -10,6 +10,7 @@
     used by the correspondence checks is at the end. *)
 From Coq Require Import List Bool Arith ZArith.
 Import ListNotations.
+From Attrs Require Import Base.
 
 (** ** Arguments as the user passes them *)
 
@@ -302,3 +303,34 @@ Fixpoint vectors {A} (dom : list A) (k : nat) : list (list A) :=
   | O => [[]]
   | S k' => flat_map (fun a => map (cons a) (vectors dom k')) dom
   end.
+
+(** ** decidable equality of resolved fields (used by both correspondence checks) *)
+Definition optk_eqb (a b : option keyid) : bool := option_eqb Nat.eqb a b.
+Definition fld_eqb (a b : fld) : bool :=
+  Nat.eqb (f_name a) (f_name b) && Bool.eqb (f_eq a) (f_eq b) && optk_eqb (f_eq_key a) (f_eq_key b)
+  && Bool.eqb (f_order a) (f_order b) && optk_eqb (f_order_key a) (f_order_key b).
+Definition resfld_eqb (a b : res fld) : bool :=
+  match a, b with Ok x, Ok y => fld_eqb x y | VErr, VErr => true | _, _ => false end.
+
+Lemma optk_eqb_spec a b : optk_eqb a b = true <-> a = b.
+Proof.
+  destruct a, b; cbn; split; intros H; try discriminate; try reflexivity.
+  - apply Nat.eqb_eq in H. congruence.
+  - inversion H. apply Nat.eqb_refl.
+Qed.
+
+Lemma fld_eqb_spec a b : fld_eqb a b = true <-> a = b.
+Proof.
+  destruct a, b; unfold fld_eqb; cbn.
+  rewrite !andb_true_iff, !optk_eqb_spec, Nat.eqb_eq. split.
+  - intros [[[[-> H1] ->] H2] ->]. apply Bool.eqb_prop in H1, H2. congruence.
+  - intros H; inversion H; subst. rewrite !Bool.eqb_reflx. auto.
+Qed.
+
+Lemma resfld_eqb_spec a b : resfld_eqb a b = true <-> a = b.
+Proof.
+  destruct a, b; cbn; split; intros H; try discriminate; try reflexivity.
+  - apply fld_eqb_spec in H. congruence.
+  - inversion H; subst. now apply fld_eqb_spec.
+Qed.
+
